@@ -56,6 +56,10 @@ package bttest
 //@ spec famOK(f *btpb.Family) bool = f != nil && colsOK(f.Columns)
 //@ spec famsOK(fs []*btpb.Family) bool = forall i :: 0 <= i < len(fs) ==> famOK(fs[i])
 //@ spec rowOK(r *btpb.Row) bool = r != nil && famsOK(r.Families)
+// Representation invariant of a row as delivered by a Rows store (a freshly deserialised tree): well-formed,
+// families/columns are distinct objects with distinct backing arrays (famSep, colSep: defined in the filters and
+// mutations contract files), cells strictly descending by timestamp (rowDesc).
+//@ spec rowRep(r *btpb.Row) bool = rowOK(r) && famSep(r.Families) && colSep(r) && rowDesc(r)
 //@ spec descTS(cs []*btpb.Cell) bool = forall a, b :: 0 <= a < b < len(cs) ==> cs[a].TimestampMicros > cs[b].TimestampMicros
 
 // ---------------------------------------------------------------------------------------------
@@ -173,14 +177,17 @@ package bttest
 //@   requires tbl != nil
 //@   modifies tbl.ColumnFamilies
 //@   ensures result != nil && fresh(result) && result.def == tbl && result.rows == rows && tbl.ColumnFamilies != nil
+//@   ensures old(tbl.ColumnFamilies) != nil ==> tbl.ColumnFamilies == old(tbl.ColumnFamilies)
+//@   ensures old(tbl.ColumnFamilies) == nil ==> fresh(tbl.ColumnFamilies) && len(tbl.ColumnFamilies) == 0
 
 //@ func (t *table) cols
 //@   inline
 
 //@ func (t *table) getOrCreateRow
 //@   property C01 C06
+//@   held t.mu r
 //@   requires t.rows != nil
-//@   ensures rowOK(result) && fresh(result)
+//@   ensures rowRep(result) && fresh(result)
 
 //@ func modifyCell
 //@   property C05
@@ -217,3 +224,7 @@ package bttest
 //@   ensures typeis(rule.Rule, *btapb.GcRule_MaxAge) ==> forall k :: 0 <= k < len(cells) ==> ((k < len(result)) <==> (cells[k].TimestampMicros >= now - as(rule.Rule, *btapb.GcRule_MaxAge).MaxAge.Seconds * 1000000 - as(rule.Rule, *btapb.GcRule_MaxAge).MaxAge.Nanos / 1000))
 //@   loop 1 invariant obj(cells) == old(obj(cells)) && len(cells) <= old(len(cells))
 //@   loop 1 invariant forall k :: 0 <= k < len(cells) ==> cells[k] == old(cells[k])
+
+// Injected callbacks: the clock and the error logger do not touch emulator state.
+//@ typeinv purefunc server.clock
+//@ typeinv purefunc LeveldbDiskStorage.ErrLog
